@@ -142,6 +142,21 @@ def post_explore(ctx, res, pids, opts):
         except Exception as e:
             rep("parameterised_vector_does_not_decode", {"vector": list(vec), "exception": f"{type(e).__name__}: {str(e)[:120]}"})
             break
+        # a vector held by the caller (the sampler returns int64 arrays) must survive decoding
+        arr = np.array(vec, dtype=np.int64)
+        try:
+            a_arr1 = psp.get_action(arr)
+            a_arr2 = psp.get_action(arr)
+            same = (type(a_arr1) is type(a) and type(a_arr2) is type(a)
+                    and (isinstance(a, NoOp) or (action_fields(a_arr1) == action_fields(a) == action_fields(a_arr2))))
+            if not np.array_equal(arr, np.array(vec)) or not same:
+                rep("parameterised_vector_changed_or_decoded_differently_when_decoded_again",
+                    {"vector": list(vec), "array_after_decoding": arr.tolist()})
+                break
+        except Exception as e:
+            rep("parameterised_vector_does_not_decode", {"vector": list(vec), "as": "np.ndarray[int64] decoded twice",
+                                                         "exception": f"{type(e).__name__}: {str(e)[:120]}"})
+            break
         try:
             typ = TYPE_TABLE[vec[0]] if vec[0] < len(TYPE_TABLE) else None
             sub = vec[1] + 1
